@@ -131,14 +131,27 @@ static void HandleBuildLog(const json& in) {
       if (bl) bl->Close();
     } else if (k == "truncate") {
       if (truncate(path.c_str(), op["n"].get<int64_t>()) != 0) r["errno"] = errno;
+    } else if (k == "truncate_back") {
+      struct stat sb; int64_t sz = stat(path.c_str(), &sb) == 0 ? (int64_t)sb.st_size : 0;
+      int64_t n = sz - op["back"].get<int64_t>(); if (n < 0) n = 0;
+      if (truncate(path.c_str(), n) != 0) r["errno"] = errno;
+      r["n"] = n;
     } else if (k == "append_raw") {
       FILE* f = fopen(path.c_str(), "ab"); string b = FromHex(op["bytes"]); fwrite(b.data(), 1, b.size(), f); fclose(f);
     } else if (k == "set_raw") {
       WriteAll(path, FromHex(op["bytes"]));
     } else if (k == "load_dump") {
-      BuildLog b2; string err; LoadStatus st = b2.Load(path, &err);
+      // load a *copy* (a load can delete a file with an unsupported header; the probe must not disturb the history)
+      struct stat sb; bool ex = stat(path.c_str(), &sb) == 0;
+      r["exists"] = ex; r["size"] = ex ? (int64_t)sb.st_size : -1;
+      string tmp = dir + "/probe.log";
+      if (ex) WriteAll(tmp, ReadAll(path)); else unlink(tmp.c_str());
+      BuildLog b2; string err; LoadStatus st = b2.Load(tmp, &err);
       r["load"] = (int)st; r["warn"] = err; r["entries"] = DumpEntries(b2);
-      struct stat sb; r["exists"] = stat(path.c_str(), &sb) == 0; r["size"] = r["exists"].get<bool>() ? (int64_t)sb.st_size : -1;
+      r["copy_exists_after"] = stat(tmp.c_str(), &sb) == 0;
+      unlink(tmp.c_str());
+    } else if (k == "dump") {
+      if (bl) r["entries"] = DumpEntries(*bl);
     } else if (k == "raw") {
       r["bytes"] = ToHex(ReadAll(path));
     } else if (k == "recompact") {
@@ -162,7 +175,12 @@ static void HandleBuildLog(const json& in) {
       if (b > (int64_t)all.size()) b = all.size();
       vector<int64_t> offs;
       if (op.contains("offsets")) for (auto& o : op["offsets"]) offs.push_back(o.get<int64_t>());
-      else for (int64_t n = a; n <= b; ++n) offs.push_back(n);
+      else if ((int64_t)all.size() <= 4096) for (int64_t n = a; n <= b; ++n) offs.push_back(n);
+      else {  // stratified: both ends completely, the middle sparsely
+        for (int64_t n = 0; n < 600; ++n) offs.push_back(n);
+        for (int64_t n = 600; n + 600 < (int64_t)all.size(); n += 997) offs.push_back(n);
+        for (int64_t n = (int64_t)all.size() - 600; n <= (int64_t)all.size(); ++n) offs.push_back(n);
+      }
       for (int64_t n : offs) {
         if (n < 0 || n > (int64_t)all.size()) continue;
         WriteAll(tmp, all.substr(0, n));
@@ -214,6 +232,7 @@ static void HandleDepsLog(const json& in) {
   string dir = in["dir"]; string path = dir + "/.ninja_deps";
   DepsLog* dl = nullptr; State* state = nullptr;
   json out = json::array();
+  auto fsize = [](const string& p) { struct stat sb; return stat(p.c_str(), &sb) == 0 ? (int64_t)sb.st_size : (int64_t)-1; };
   for (auto& op : in["ops"]) {
     string k = op["op"];
     json r = {{"op", k}};
@@ -222,52 +241,95 @@ static void HandleDepsLog(const json& in) {
       dl = new DepsLog; state = new State;
       if (op.contains("live")) SetupLive(state, op["live"]);
       string err; LoadStatus st = dl->Load(path, state, &err);
-      r["load"] = (int)st; r["warn"] = err; r["deps"] = DumpDeps(*dl);
-      struct stat sb; r["size_after_load"] = stat(path.c_str(), &sb) == 0 ? (int64_t)sb.st_size : -1;
+      r["load"] = (int)st; r["warn"] = err; r["deps"] = DumpDeps(*dl); r["paths"] = DumpNodePaths(*dl);
+      r["size_after_load"] = fsize(path);
       if (st != LOAD_ERROR) { string e2; bool ok = dl->OpenForWrite(path, &e2); r["open_ok"] = ok; r["open_err"] = e2; }
+      r["size_after_open"] = fsize(path);
+      r["deps_after_open"] = DumpDeps(*dl);
     } else if (k == "record") {
       Node* o = state->GetNode(FromHex(op["out"]), 0);
       vector<Node*> ins; for (auto& i : op["ins"]) ins.push_back(state->GetNode(FromHex(i), 0));
       r["ok"] = dl->RecordDeps(o, op.value("mtime", (int64_t)1), ins);
     } else if (k == "close") {
       if (dl) dl->Close();
-    } else if (k == "truncate") {
-      if (truncate(path.c_str(), op["n"].get<int64_t>()) != 0) r["errno"] = errno;
+    } else if (k == "truncate_back") {
+      int64_t sz = fsize(path); if (sz < 0) sz = 0;
+      int64_t n = sz - op["back"].get<int64_t>(); if (n < 0) n = 0;
+      if (truncate(path.c_str(), n) != 0) r["errno"] = errno;
+      r["n"] = n;
     } else if (k == "append_raw") {
       FILE* f = fopen(path.c_str(), "ab"); string b = FromHex(op["bytes"]); fwrite(b.data(), 1, b.size(), f); fclose(f);
+    } else if (k == "append_damage") {
+      // one structurally malformed record behind the current content; field values refer to the number of paths
+      // the file defines right now (learned from a load of a copy)
+      string tmp = dir + "/probe.deps"; WriteAll(tmp, ReadAll(path));
+      State s2; DepsLog d2; string err; d2.Load(tmp, &s2, &err); unlink(tmp.c_str());
+      int np = (int)d2.nodes().size();
+      string first = np ? d2.nodes()[0]->path() : string("dup");
+      auto u32 = [](uint32_t v) { return string((const char*)&v, 4); };
+      auto deps_rec = [&](int out, vector<int> ins) { string b = u32((12 + 4 * ins.size()) | 0x80000000u) + u32((uint32_t)out) + u32(5) + u32(0); for (int i : ins) b += u32((uint32_t)i); return b; };
+      auto path_rec = [&](const string& p, int idx) { size_t pad = (4 - p.size() % 4) % 4; return u32(p.size() + pad + 4) + p + string(pad, '\0') + u32(~(uint32_t)idx); };
+      string kind = op["kind"], b;
+      if (kind == "deps_size4") b = u32(4 | 0x80000000u) + u32(0);
+      else if (kind == "deps_size8") b = u32(8 | 0x80000000u) + u32(0) + u32(1);
+      else if (kind == "neg_out") b = deps_rec(-1, {});
+      else if (kind == "big_out") b = deps_rec(np, {});
+      else if (kind == "huge_out") b = deps_rec(0x7ffffff0, {});
+      else if (kind == "neg_in") b = np ? deps_rec(0, {-2}) : deps_rec(0, {});
+      else if (kind == "big_in") b = np ? deps_rec(0, {np + 3}) : deps_rec(3, {});
+      else if (kind == "unaligned_path") b = u32(6) + "zz" + u32(~(uint32_t)np);
+      else if (kind == "nul_path") b = u32(8) + string(4, '\0') + u32(~(uint32_t)np);
+      else if (kind == "bad_checksum") b = path_rec(op.contains("path") ? FromHex(op["path"]) : string("chk"), np + 1 + op.value("skew", 0));
+      else if (kind == "dup_path") b = path_rec(first, np);
+      else if (kind == "oversize") b = u32((1 << 19)) + string(64, 'x');
+      else if (kind == "unaligned_deps") b = u32(13 | 0x80000000u) + string(13, '\0');
+      else b = u32(0);
+      FILE* f = fopen(path.c_str(), "ab"); fwrite(b.data(), 1, b.size(), f); fclose(f);
     } else if (k == "set_raw") {
       WriteAll(path, FromHex(op["bytes"]));
     } else if (k == "raw") {
+      r["exists"] = fsize(path) >= 0;
       r["bytes"] = ToHex(ReadAll(path));
     } else if (k == "load_dump") {
-      State s2; DepsLog d2; string err; LoadStatus st = d2.Load(path, &s2, &err);
+      // on a copy: Load truncates / unlinks as part of recovery and the probe must not disturb the history
+      string tmp = dir + "/probe.deps";
+      bool ex = fsize(path) >= 0;
+      if (ex) WriteAll(tmp, ReadAll(path)); else unlink(tmp.c_str());
+      State s2; DepsLog d2; string err; LoadStatus st = d2.Load(tmp, &s2, &err);
+      r["exists"] = ex;
       r["load"] = (int)st; r["warn"] = err; r["deps"] = DumpDeps(d2); r["paths"] = DumpNodePaths(d2);
-      struct stat sb; r["size_after_load"] = stat(path.c_str(), &sb) == 0 ? (int64_t)sb.st_size : -1;
+      r["size_after_load"] = fsize(tmp);
+      unlink(tmp.c_str());
     } else if (k == "recompact") {
-      // liveness is decided through the State: IsDepsEntryLiveFor(node) = node has an in-edge with a deps binding
+      // liveness is decided through the State: a deps entry is live iff its output has an in-edge with a deps binding
       if (dl) dl->Close();
       dl = new DepsLog; state = new State;
       SetupLive(state, op.value("live", json::array()));
       string err; LoadStatus st = dl->Load(path, state, &err);
-      r["load"] = (int)st;
+      r["load"] = (int)st; r["before"] = DumpDeps(*dl);
       bool ok = dl->Recompact(path, &err); r["ok"] = ok; r["err"] = err;
       r["deps"] = DumpDeps(*dl);
+      string e2; dl->OpenForWrite(path, &e2);
     } else if (k == "tear_scan") {
       string all = ReadAll(path);
       string tmp = dir + "/tear.deps";
       json scans = json::array();
       vector<int64_t> offs;
       if (op.contains("offsets")) for (auto& o : op["offsets"]) offs.push_back(o.get<int64_t>());
-      else for (int64_t n = 0; n <= (int64_t)all.size(); ++n) offs.push_back(n);
+      else if ((int64_t)all.size() <= 3000) for (int64_t n = 0; n <= (int64_t)all.size(); ++n) offs.push_back(n);
+      else {
+        for (int64_t n = 0; n < 500; ++n) offs.push_back(n);
+        for (int64_t n = 500; n + 500 < (int64_t)all.size(); n += 499) offs.push_back(n);
+        for (int64_t n = (int64_t)all.size() - 500; n <= (int64_t)all.size(); ++n) offs.push_back(n);
+      }
       string tail = FromHex(op.value("tail", string("")));
       for (int64_t n : offs) {
         if (n < 0 || n > (int64_t)all.size()) continue;
         WriteAll(tmp, all.substr(0, n) + tail);
         State s2; DepsLog d2; string err; LoadStatus st = d2.Load(tmp, &s2, &err);
-        struct stat sb; int64_t sz = stat(tmp.c_str(), &sb) == 0 ? (int64_t)sb.st_size : -1;
-        json sc = {{"n", n}, {"load", (int)st}, {"warn", err}, {"deps", DumpDeps(d2)}, {"npaths", (int)d2.nodes().size()}, {"size_after_load", sz}};
+        json sc = {{"n", n}, {"load", (int)st}, {"warn", err}, {"deps", DumpDeps(d2)}, {"npaths", (int)d2.nodes().size()}, {"size_after_load", fsize(tmp)}};
         if (op.value("then_append", false) && st != LOAD_ERROR) {
-          // a later session appends one record behind the recovered prefix; a third session must see it
+          // a later session appends one record behind the recovered prefix; a third session must see everything
           string e2; d2.OpenForWrite(tmp, &e2);
           Node* o = s2.GetNode("appended.o", 0); vector<Node*> ins{s2.GetNode("appended.h", 0)};
           bool ok = d2.RecordDeps(o, 4242, ins); d2.Close();
